@@ -10,7 +10,7 @@ REPO = "/repo"
 NCPU = 16
 
 GOENV = dict(os.environ, GOFLAGS="-mod=mod", GOPROXY="off", GOSUMDB="off", GOTOOLCHAIN="local",
-             CGO_ENABLED=os.environ.get("CGO_ENABLED", "0"))
+             CGO_ENABLED=os.environ.get("CGO_ENABLED", "0"), REFMT_CLI=os.path.join(BUILD, "refmt-cli"))
 
 FORBIDDEN = re.compile(r"\b(Admitted|admit|Axiom|Parameter|Conjecture|Admit Obligations|bypass_check)\b|Unset Guard Checking|Unset Positivity Checking|Unset Universe Checking|-type-in-type|-impredicative-set")
 
@@ -70,6 +70,16 @@ def build_harness():
                  cwd=hdir, env=GOENV, timeout=900)
     _state["harness_ok"] = rc == 0
     _state["harness_log"] = out
+    if rc == 0:
+        # the refmt command-line tool, for the black-box part of C10
+        rc2, out2 = sh(["go", "build", "-o", os.path.join(BUILD, "refmt-cli"), "."],
+                       cwd=os.path.join(REPO, "cmd", "refmt"), env=GOENV, timeout=900)
+        if rc2 != 0:
+            try:
+                os.remove(os.path.join(BUILD, "refmt-cli"))
+            except OSError:
+                pass
+            out += out2
     return rc == 0, out
 
 
